@@ -18,10 +18,13 @@ lane() {
     for D in /verif/seeded/$ID/*/; do
       [ -f $D/patch.diff ] || continue
       name=$(basename $D)
+      case "$name" in ${ONLY:-}*) ;; *) continue;; esac
       M=/tmp/reseed-m-$k; rm -rf $M; mkdir -p $M/demo
       cp $D/patch.diff $M/patch.diff
-      [ -f $D/demo_test.go.txt ] && cp $D/demo_test.go.txt $M/demo_test.go
-      [ -f $D/demo_main.go.txt ] && cp $D/demo_main.go.txt $M/demo/main.go
+      rmdir $M/demo
+      for f in $D/demo*_test.go.txt; do [ -f "$f" ] && cp $f $M/$(basename $f .txt); done
+      [ -f $D/demo_main.go.txt ] && { mkdir -p $M/demo; cp $D/demo_main.go.txt $M/demo/main.go; }
+      [ -d $D/demo ] && cp -r $D/demo $M/demo
       conf=$(SCRATCH_CONFIRM=$S /verif/tool/confirm_mut.sh $ID $M)
       case "$conf" in
         *"APPLY=yes BUILD=yes SUITE_EXTRA_FAILS=0 DEMO_CLEAN_RC=0 DEMO_MUT_RC=1"*) ;;
